@@ -1,6 +1,7 @@
 package envx
 
 import (
+	"fmt"
 	"encoding/binary"
 	"io"
 	"net"
@@ -146,11 +147,7 @@ func (k *KDC) Close() {
 
 // RefusedAddr returns a loopback address on which nothing listens (TCP and UDP).
 func RefusedAddr() string {
-	ln, err := net.Listen("tcp4", "127.0.0.1:0")
-	if err != nil {
-		return "127.0.0.1:1"
-	}
-	a := ln.Addr().String()
-	ln.Close()
-	return a
+	// (from below the kernel's ephemeral range, handed out once: a port that was merely free a moment ago is given to the
+	// next fake KDC of a script running alongside, and "refuses" then answers - with somebody else's reply)
+	return fmt.Sprintf("127.0.0.1:%d", ClosedPort())
 }
